@@ -9,29 +9,7 @@ From SCC Require Import Base.Sexp Lang.SynUtil Lang.FunSyn Model.Check Sem.FunTy
 Import ListNotations.
 Open Scope list_scope.
 
-(* ---------- identifier-like names in terms ---------- *)
-Fixpoint term_names_ok (t : fterm) : bool :=
-  let ml := fix go (l : list fterm) : bool := match l with [] => true | a :: r => term_names_ok a && go r end in
-  let mc := fix go (l : list fclause) : bool :=
-    match l with [] => true | FClause _ x _ _ b :: r => name_ok x && term_names_ok b && go r end in
-  match t with
-  | FVar _ a _ => oty_names_ok a
-  | FLit _ => true
-  | FOp a _ b => term_names_ok a && term_names_ok b
-  | FIfC _ a b th el _ => term_names_ok a && match b with Some b' => term_names_ok b' | None => true end
-                          && term_names_ok th && term_names_ok el
-  | FPrint _ a n _ => term_names_ok a && term_names_ok n
-  | FLet _ vty a b _ => ty_names_ok vty && term_names_ok a && term_names_ok b
-  | FCall _ args _ => ml args
-  | FCtor x args _ => name_ok x && ml args
-  | FDtor s x targs args _ => name_ok x && tys_names_ok targs && term_names_ok s && ml args
-  | FCase s targs cls _ => tys_names_ok targs && term_names_ok s && mc cls
-  | FNew cls _ => mc cls
-  | FLabel _ t _ | FGoto _ t _ | FExit t _ | FParen t => term_names_ok t
-  end.
-Definition terms_names_ok (l : list fterm) : bool := forallb term_names_ok l.
-Definition clause_names_ok (c : fclause) : bool := name_ok (clause_xtor c) && term_names_ok (clause_body c).
-Definition clauses_names_ok (l : list fclause) : bool := forallb clause_names_ok l.
+(* ---------- identifier-like names in terms (definitions in Sem/FunNames.v) ---------- *)
 Lemma terms_names_ok_eq : forall l,
   (fix go (l : list fterm) : bool := match l with [] => true | a :: r => term_names_ok a && go r end) l = terms_names_ok l.
 Proof. induction l; simpl; [reflexivity|]. rewrite IHl. reflexivity. Qed.
